@@ -11,7 +11,37 @@ let hexnum_of_le (l : z list) : string =
   while !i < n - 1 && s.[!i] = '0' do incr i done;
   if n = 0 then "0" else String.sub s !i (n - !i)
 
+(* byte strings / texts: hex, "-" = empty *)
+let bytes_arg s = if s = "-" then [] else zbytes_of_hex s
+let hex_out l = match l with [] -> "-" | _ -> hex_of_zbytes l
+let out_bytes o = match o with Ok v -> "OK " ^ hex_out v | Invalid -> "INVALID" | Abort -> "ABORT"
+(* sha256 is a Section variable of the address model: the case line supplies the
+   values of the real function as <input>:<output> pairs *)
+let sha_table args = List.map (fun p -> match String.split_on_char ':' p with
+  | [i; o] -> (bytes_arg i, bytes_arg o) | _ -> failwith "bad sha pair") args
+let sha_of tbl x = try List.assoc x tbl with Not_found -> failwith "sha256 value not supplied"
+let out_addr o = match o with
+  | Ok a -> Printf.sprintf "OK %s %s" (hex_of_z a.addr_type) (hex_out (addr_to_string a))
+  | Invalid -> "INVALID" | Abort -> "ABORT"
+
 let handle op args = match op, args with
+  | "hexstr", [b] -> hex_out (hex_str (bytes_arg b))
+  | "parsehex", [s] -> hex_out (parse_hex (bytes_arg s))
+  | "ishex", [s] -> b2s (is_hex (bytes_arg s))
+  | "b58enc", [b] -> out_bytes (b58_encode (bytes_arg b))
+  | "b58dec", [s] -> out_bytes (b58_decode (bytes_arg s))
+  | "b59enc", [b] -> "OK " ^ hex_out (b59_encode (bytes_arg b))
+  | "b59dec", [s] -> out_bytes (b59_decode (bytes_arg s))
+  | "addrpk", k :: sha ->
+    let f = sha_of (sha_table sha) in
+    let kb = bytes_arg k in
+    (match addr_from_public_key f kb with
+     | Ok a ->
+       let d = (match addr_is_derived_from_public_key f a kb with Ok true -> "1" | Ok false -> "0" | _ -> "X") in
+       let back = out_addr (addr_from_string f (addr_to_string a)) in
+       Printf.sprintf "%s derived=%s back=%s" (out_addr (Ok a)) d back
+     | o -> out_addr o)
+  | "addrstr", s :: sha -> out_addr (addr_from_string (sha_of (sha_table sha)) (bytes_arg s))
   | "frombits", [c] ->
     let ((t, neg), ovf) = fromBits (z_of_hex c) in
     Printf.sprintf "%s %s %s" (hex_of_z t) (b2s neg) (b2s ovf)
